@@ -202,7 +202,18 @@ def peek(layer: Any, attr: str) -> Any:
     """Non-invasive read of a layer attribute that may hold a future: never
     waits (waiting on a bucketed allreduce before the flush would hang and
     would change the schedule of the code under test)."""
-    v = vars(layer).get('_' + attr, vars(layer).get(attr))
+    d = vars(layer)
+    if ('_' + attr) in d or attr in d:
+        v = d.get('_' + attr, d.get(attr))
+    else:
+        # the private layout is not the pinned one (a refactoring): use the
+        # public property, without ever blocking or logging a wait
+        from harness import simdist
+        try:
+            with simdist.nonblocking():
+                v = getattr(layer, attr, None)
+        except simdist.WouldBlock:
+            return PENDING
     if isinstance(v, (torch._C.Future, torch.futures.Future)):
         if not v.done():
             return PENDING
@@ -242,15 +253,19 @@ def execute(cfg: kaisa.Config, hist: list[dict[str, Any]], seed: int,
                         cap.pid += 1
                         xb, yb = kaisa.make_batch(cfg, seed, rank, rr.it, mb,
                                                   dtype)
+                        sc = kaisa.loss_scale(cfg, rr.it, mb)
+                        if sc is not None:
+                            rr.pre._verif_scale_cell['v'] = sc
+                            interp.scales[cap.pid] = sc
                         o = rr.model(xb)
-                        kaisa.loss_fn(o, yb, o.shape[0] // cfg.union,
-                                      cfg.grad_scaler).backward()
+                        kaisa.scaled_backward(
+                            rr.model, rr.pre,
+                            kaisa.loss_fn(o, yb, o.shape[0] // cfg.union,
+                                          None), sc)
                     with torch.no_grad():
                         for p in rr.model.parameters():
                             if p.grad is None:
                                 continue
-                            if cfg.grad_scaler is not None:
-                                p.grad.div_(cfg.grad_scaler)
                             if cfg.union > 1:
                                 p.grad.div_(cfg.union)
                     if cfg.W > 1:
